@@ -18,7 +18,7 @@ os.close(fd)
 env = dict(os.environ)
 env.pop('GLUE_VERIF', None)
 cmd = ['/venv/bin/python', '-m', 'pytest', '-q', '-p', 'no:cacheprovider', '--timeout=900',
-       '--continue-on-collection-errors', '-n', '12', '--junitxml=' + xml]
+       '--continue-on-collection-errors', '-n', os.environ.get('SUITE_JOBS', '12'), '--junitxml=' + xml]
 p = subprocess.run(cmd, cwd=repo, env=env, stdout=subprocess.PIPE, stderr=subprocess.STDOUT, text=True)
 passed = set()
 failed = set()
